@@ -168,6 +168,9 @@ func (e *Env) open() error {
 		gofakes3.WithAutoBucket(cfg.AutoBucket),
 		gofakes3.WithHostBucket(cfg.HostBucket),
 	}
+	if cfg.HostBase {
+		opts = append(opts, gofakes3.WithHostBucketBase("sim"))
+	}
 	if os.Getenv("SIMCHECK_DEBUG") != "" {
 		opts = append(opts, gofakes3.WithGlobalLog())
 	}
